@@ -43,7 +43,7 @@ def units(ph):
 
 # ------------------------------------------------------------------------------------ recording gate set
 class RecGates:
-    """records every gate-set call; returns token matrices (tok k: arr[0,0] = k + 0.5). The record lives on the class,
+    """records every gate-set call; returns token matrices (tok k = (k + 0.5) * identity). The record lives on the class,
     so deep copies of the instance (one per shot) share it."""
     calls = []
     PHASES = {"X": 1, "SX": 1, "CNOT": 2, "CNOT_inv": 2, "ECR": 2, "ECR_inv": 2, "relaxation": 0, "bitflip": 0, "depolarizing": 0}
@@ -56,9 +56,7 @@ class RecGates:
         k = len(RecGates.calls)
         np_ = RecGates.PHASES[method]
         RecGates.calls.append({"m": method, "ph": [units(a) for a in args[:np_]], "pars": [decode(a) for a in args[np_:]]})
-        M = np.zeros((dim, dim), dtype=complex)
-        M[0, 0] = k + 0.5
-        return M
+        return (k + 0.5) * np.eye(dim, dtype=complex)     # a scaled identity: decodable, and the state stays non-zero
 
     def X(self, *a): return self._rec("X", 2, a)
     def SX(self, *a): return self._rec("SX", 2, a)
@@ -73,7 +71,7 @@ class RecGates:
 
 def entry(x):
     if isinstance(x, np.ndarray):
-        if x.shape in ((2, 2), (4, 4)) and abs(x[0, 0].real % 1 - 0.5) < 1e-9:
+        if x.shape in ((2, 2), (4, 4)) and abs(x[0, 0].real % 1 - 0.5) < 1e-9 and np.array_equal(x, x[0, 0] * np.eye(x.shape[0])):
             return int(x[0, 0].real - 0.5)
         if x.shape == (2, 2) and np.array_equal(x, np.eye(2)):
             return "I"
@@ -167,17 +165,15 @@ def observe_run(cls, ops, nqubit, gates=None, psi0=None, device_param=None, shot
     orig_apply = S._apply_gates_on_circuit
 
     def apply(data, circ, dpar, lay):
+        first = len(RecGates.calls)
         orig_apply(data, circ, dpar, lay)
-        snap["state"] = state_of(circ)
-        snap["layout"] = [int(x) for x in lay]
-        snap["depth"] = getattr(circ, "depth", None)
-        snap["nqubit"] = circ.nqubit
-    if want_result:
-        # real gate set: the REAL _single_shot runs (it looks _apply_gates_on_circuit up at call time); only a snapshot is taken
-        S._apply_gates_on_circuit = apply
-    else:
-        # recording gate set: token matrices cannot be propagated, the shot stops after the build
-        S._single_shot = shot
+        shot_snap = {"state": state_of(circ), "layout": [int(x) for x in lay], "depth": getattr(circ, "depth", None),
+                     "nqubit": circ.nqubit, "calls": list(RecGates.calls[first:]), "first_call": first}
+        snap.setdefault("shots", []).append(shot_snap)
+        if "state" not in snap:                 # the first shot is the one compared with the model
+            snap.update({k: shot_snap[k] for k in ("state", "layout", "depth", "nqubit")})
+    # the REAL _single_shot runs in both modes (it looks _apply_gates_on_circuit up at call time); only snapshots are taken
+    S._apply_gates_on_circuit = apply
     try:
         with contextlib.redirect_stdout(io.StringIO()):
             psi = psi0 if psi0 is not None else np.eye(1, 2 ** nqubit)[0].astype(complex)
@@ -188,7 +184,7 @@ def observe_run(cls, ops, nqubit, gates=None, psi0=None, device_param=None, shot
         S._single_shot = orig
         S._apply_gates_on_circuit = orig_apply
     out = dict(snap)
-    out["calls"] = list(RecGates.calls)
+    out["calls"] = list(snap["shots"][0]["calls"]) if snap.get("shots") else list(RecGates.calls)
     out["result"] = res
     return out
 
@@ -215,14 +211,43 @@ def compare_run(real, model, cls):
     for key in rs:
         if key in ms and rs[key] != ms[key]:
             diff.append(f"circuit object field {key}: impl {str(rs[key])[:120]} vs model {str(ms[key])[:120]}")
+    diff += later_shots(real)
     return diff
+
+
+def shift_tokens(x, off):
+    if isinstance(x, list):
+        return [shift_tokens(y, off) for y in x]
+    return x - off if isinstance(x, int) and not isinstance(x, bool) else x
+
+
+def later_shots(real):
+    """every shot of a run is built like the first one: same gate-set calls (method, phases, parameters) and placements"""
+    out = []
+    shots = real.get("shots") or []
+    for k, sh in enumerate(shots[1:], start=2):
+        if sh["calls"] != shots[0]["calls"]:
+            j = next((i for i, (a, b) in enumerate(zip(sh["calls"], shots[0]["calls"])) if a != b), min(len(sh["calls"]), len(shots[0]["calls"])))
+            out.append(f"shot {k} of the run: gate-set call {j} is {sh['calls'][j] if j < len(sh['calls']) else None}, in the first shot it was "
+                       f"{shots[0]['calls'][j] if j < len(shots[0]['calls']) else None}")
+            continue
+        a, b = sh["state"], shots[0]["state"]
+        for key in a:
+            va = shift_tokens(a[key], sh["first_call"]) if key in ("items", "mp", "mp_list", "grid") else a[key]
+            if key == "items":
+                va = [[it[0] - sh["first_call"] if isinstance(it[0], int) else it[0]] + it[1:] for it in a[key]]
+            if va != b[key]:
+                out.append(f"shot {k} of the run: circuit object field {key} is {str(va)[:100]}, in the first shot {str(b[key])[:100]}")
+                break
+    return out
 
 
 # ------------------------------------------------------------------------------------ generators
 def random_ops(rng, cls, n, length, measure="some"):
     """native-basis op list; layered classes: labels 0..n-1 all used, adjacent pairs; binary: scattered labels, any pairs"""
     if cls == "binary":
-        labels = sorted(rng.sample(range(0, n + rng.choice([0, 0, 2, 4])), n))
+        # contiguous, slightly scattered, and widely scattered physical labels (e.g. [1, 8], [3, 17])
+        labels = sorted(rng.sample(range(0, n + rng.choice([0, 0, 2, 4, 12, 24])), n))
     else:
         labels = list(range(n))
     order = labels[:]
